@@ -4,6 +4,7 @@ package main
 // fragmentation, short writes, stalls and cuts.
 
 import (
+	"sync"
 	"context"
 	"fmt"
 	"strings"
@@ -184,8 +185,21 @@ func runReadCase(limit int, sizes []int, plan []string, n int) *tcpCase {
 	_, _ = cmem.Write(stream)
 	cmem.CloseWrite()
 	var rp []memconn.ReadStep
+	var curCancel context.CancelFunc
+	var ctxMu sync.Mutex
+	ctxFired := false
 	for _, s := range plan {
 		switch {
+		case s == "ctx":
+			// the connection stalls and the context of the Receive in progress ends meanwhile
+			rp = append(rp, memconn.ReadStep{Stall: true, Hook: func() {
+				ctxMu.Lock()
+				ctxFired = true
+				if curCancel != nil {
+					curCancel()
+				}
+				ctxMu.Unlock()
+			}})
 		case s == "stall":
 			rp = append(rp, memconn.ReadStep{Stall: true})
 		case s == "cut":
@@ -202,11 +216,18 @@ func runReadCase(limit int, sizes []int, plan []string, n int) *tcpCase {
 	var logged []string
 	for k := 0; k < n; k++ {
 		ctx, cancel := context.WithTimeout(context.Background(), 3*time.Second)
+		ctxMu.Lock()
+		curCancel = cancel
+		ctxFired = false
+		ctxMu.Unlock()
 		res := guard(func() Res {
 			v, err := t.Receive(ctx)
 			return resOf(v, err)
 		})
 		cancel()
+		ctxMu.Lock()
+		fired := ctxFired
+		ctxMu.Unlock()
 		taken := 0
 		for _, e := range smem.TakeLog() {
 			if e.Write {
@@ -225,6 +246,9 @@ func runReadCase(limit int, sizes []int, plan []string, n int) *tcpCase {
 			default:
 				logged = append(logged, "cut")
 			}
+		}
+		if fired {
+			logged = append(logged, "ctx")
 		}
 		c.Taken = append(c.Taken, taken)
 		switch res.Tag {
@@ -255,6 +279,8 @@ func runReadCase(limit int, sizes []int, plan []string, n int) *tcpCase {
 			planT[i] = "REof"
 		case s == "cut":
 			planT[i] = "RCut"
+		case s == "ctx":
+			planT[i] = "RCtxDone"
 		default:
 			planT[i] = "(RChunk " + s[6:] + ")"
 		}
@@ -343,6 +369,12 @@ func init() {
 			}
 			// cut of the connection at this offset
 			add(runReadCase(4096, sizes, []string{fmt.Sprintf("chunk:%d", cut1), "cut"}, 3), true)
+		}
+		// the context of a Receive ends while the envelope is incomplete, at every offset of a stream
+		// with a nested object; the rest arrives for the following Receive calls
+		nested := []int{minFrame(0) + 3, minFrame(1)}
+		for cut1 := 1; cut1 < nested[0]+nested[1]; cut1++ {
+			add(runReadCase(4096, nested, []string{fmt.Sprintf("chunk:%d", cut1), "ctx"}, 3), true)
 		}
 		// byte-by-byte delivery, and everything coalesced
 		one := []string{}
